@@ -1,0 +1,27 @@
+//go:build verif
+
+package replica
+
+import "github.com/lindb/lindb/pkg/queue"
+
+// VerifC06Repl is the part of Replicator that the base replicator (replica/replicator.go) implements:
+// the conversions between replica / ack / append indexes and the positions of a consumer group.
+type VerifC06Repl interface {
+	Pause()
+	Consume() int64
+	GetMessage(replicaIdx int64) ([]byte, error)
+	ReplicaIndex() int64
+	AckIndex() int64
+	AppendIndex() int64
+	ResetReplicaIndex(idx int64)
+	ResetAppendIndex(idx int64)
+	SetAckIndex(ackIdx int64)
+	Pending() int64
+	IgnoreMessage(replicaIdx int64)
+}
+
+// VerifC06Replicator returns the base replicator over the given consumer group (no shard, no family:
+// exactly the struct the local and the remote replicator embed).
+func VerifC06Replicator(cg queue.ConsumerGroup) VerifC06Repl {
+	return &replicator{channel: &ReplicatorChannel{ConsumerGroup: cg}}
+}
